@@ -49,10 +49,20 @@ func (s *Stream) enrichJoin(data map[string]any) (working map[string]any, keep b
 			return nil, false, fmt.Errorf("join table %q is not registered", jc.Table)
 		}
 		key := make([]any, len(jc.OnPairs))
+		nullKey := false
 		for i, p := range jc.OnPairs {
 			key[i], _ = streamFieldValue(data, p.StreamField)
+			if key[i] == nil {
+				nullKey = true
+			}
 		}
-		row, matched := src.Lookup(key)
+		// A NULL or missing key component equals nothing (NULL = NULL is not true), not even a
+		// table row whose key column is NULL or absent.
+		var row map[string]any
+		matched := false
+		if !nullKey {
+			row, matched = src.Lookup(key)
+		}
 		switch {
 		case matched:
 			working[jc.Alias] = row
